@@ -48,6 +48,27 @@ CLAIMED["C15"] = ("proof",
     "gzip expansion is exempt by the property.",
     "machine-checked proof in Coq + regenerated registry + fault-enumeration correspondence")
 
+CLAIMED["C12"] = ("proof",
+    "Coq theorems over a Gallina model of the file session store (file system as path -> content x mtime, loader cache, JSON+base64 codec, salt as 8 LE bytes, "
+    "filepath.Dir): for every history of Store/Load/Fresh operations and every non-decreasing mtime assignment each Load returns the last stored session (absolute, "
+    "relative, bare paths); histories with crashes and restarts refine the reference store; a missing file is not-found; every strict prefix of a written file is an error; "
+    "all 2^64 salts round-trip; NewMTProto is `encrypted` with exactly the stored key, salt and address after any Store (resume, partial). Tied to the code by replaying "
+    "thousands of random and corpus histories on real files (equal mtimes forced with Chtimes, every crash prefix) and on the extracted model.",
+    "DESIGN.md section 8 (C12)",
+    "Trusted: Coq kernel; extraction + OCaml driver; harness. encoding/json enters as Section hypotheses (round trip, no strict prefix unmarshals) re-checked on the real "
+    "library each run; base64 is an executable Gallina implementation proved to meet its hypothesis. Resume against a live server is covered with C16.",
+    "machine-checked proof in Coq + history correspondence on real files")
+
+CLAIMED["C18"] = ("proof",
+    "Coq theorems over a Gallina model of getInputCheckPassword / validateCurrentAlgo and of a reference SRP server written from Telegram's definition: for every password "
+    "hash x, salts, group 1 < p < 2^2048, g, a, b and server value B = (k v + g^b) mod p passing validation the client's secret equals the server's and the server accepts M1; "
+    "A is the 256-byte g^a; empty password gives the no-password answer; an answer is produced iff 0 < B < p and 248 <= len <= 256; no panic. Wrong-password rejection is "
+    "proved only under explicit SHA-256 injectivity hypotheses on the compared strings (partial; unconditional rejection is a cryptographic claim). Tied to the code by "
+    "exchanges against an independent math/big reference server and the extracted model (small groups fully computed, 2048-bit groups with a modexp oracle table).",
+    "DESIGN.md section 8 (C18)",
+    "Trusted: Coq kernel; extraction + OCaml driver; harness incl. its reference server; SHA-256 (Gallina, FIPS KATs) and big.Int.Exp = Z.pow mod (Section hypotheses); PBKDF2 always an oracle.",
+    "machine-checked proof in Coq + correspondence against a reference SRP server")
+
 PENDING_REASON = "check not built yet in this round (machinery under construction; see DESIGN.md section 9 order of work)"
 
 
@@ -92,7 +113,7 @@ def main():
         json.dump(m, f, indent=1)
 
 
-HOOK_COMMITS = ["8cc65cc", "33a3c78"]
+HOOK_COMMITS = ["8cc65cc", "33a3c78", "794403c", "a317da0"]
 
 if __name__ == "__main__":
     main()
